@@ -2,6 +2,8 @@
 
 from __future__ import annotations
 
+import os
+
 from hypothesis import strategies as st
 
 from .. import gen, kc, ops
@@ -17,14 +19,19 @@ RULE = (
     "permutations).  Oracle after EVERY step: snapshot (str_value, visibility, assignable, config_string of every option, "
     "selection+visibility of every choice) taken incrementally == snapshot after discarding all caches, read in "
     "permuted order A == the same read in permuted order B; at the end == snapshot of a fresh instance to which the "
-    "final user values / picks were applied (skipped when the history loaded a tool-written, default-marked file).  "
+    "final user values / picks were applied (skipped when the history loaded a tool-written, default-marked file).  In 45 % of "
+    "the cases ('sparse') the caches start empty, only the history's own partial reads (some options, some choice selections) "
+    "fill them, the comparison with the recomputation happens at a few checkpoints only (which empty the caches again), and "
+    "at the end the same history WITHOUT its reads, on a second instance, must give the same snapshot (reading changes nothing).  "
+    "Pair probes at the end of every case: for every option or choice X and every option Y that the AST says X depends on (<=90 "
+    "pairs): caches emptied, ONE property of X read, Y changed, X compared with its recomputation.  "
     "Non-trivial = the history reads some option X, then changes an option Y != X that X transitively depends on in "
     "the AST dependency graph, then reads X again.  Distinct = SHA-1 of the case."
 )
 ASSUMPTIONS = ["'discard all cached results' is Kconfig._invalidate_all(), the mechanism named in the property's anchors"]
-BUDGET = {"quick": {"examples": 2400}, "thorough": {"examples": 160000, "deadline_s": 1500}}
+BUDGET = {"quick": {"examples": 8000}, "thorough": {"examples": 160000, "deadline_s": 1500}}
 
-CFG = gen.cfg(max_syms=14, p_set=25, p_wset=25, p_set_symval=60, p_range_sym=45, p_select=28, p_imply=22, p_choice=16)
+CFG = gen.cfg(max_syms=14, p_set=25, p_wset=25, p_set_symval=60, set_symval_numeric=True, p_range_sym=45, p_select=28, p_imply=22, p_choice=24, p_bare=20)
 KINDS = [(40, "set"), (10, "unset"), (10, "reset"), (4, "reset_menu"), (6, "read"), (8, "load_hand"), (4, "write"), (4, "load_slot")]
 
 
@@ -33,13 +40,19 @@ def _cases(draw):
     d = gen.D(draw)
     tree = gen._Builder(d, CFG).build()
     files = [ops.gen_hand_file(d, tree, CFG) for _ in range(2)]
-    history = ops.gen_ops(d, tree, CFG, 4, 18, KINDS, n_files=2)
+    sparse = d.chance(45)
+    kinds = [({"read": 30, "write": 8, "load_slot": 10}.get(k, w), k) for w, k in KINDS] if sparse else KINDS
+    history = ops.gen_ops(d, tree, CFG, 4, 18, kinds, n_files=2)
     return {
         "tree": tree,
         "files": files,
         "ops": history,
         "parser": 2 if d.chance(15) else 1,
         "perm": [d.int(0, 10**6), d.int(0, 10**6)],
+        # sparse mode: caches start empty, only the history's own partial reads fill them, full comparisons happen at a few
+        # checkpoints only (and empty the caches again) - the states in which *some* results are cached
+        "sparse": sparse,
+        "checkpoints": [d.chance(25) for _ in range(len(history))],
     }
 
 
@@ -94,11 +107,18 @@ def check(case) -> Result:
         sess = ops.Session(k, tree, d, case["files"])
         g = _dep_graph(tree)
         changed_after_read = False
+        sparse = bool(case.get("sparse"))
         try:
-            _snap(k)  # populate every cache before the first operation
+            if sparse:
+                res.label("sparse-reads")
+                k._invalidate_all()
+            else:
+                _snap(k)  # populate every cache before the first operation
             for i, op in enumerate(case["ops"]):
                 sess.apply(op)
-                if op[0] in ("set", "unset", "reset") and len(g) > 1:
+                if sparse and not (case["checkpoints"][i] or i == len(case["ops"]) - 1):
+                    continue
+                if not sparse and op[0] in ("set", "unset", "reset") and len(g) > 1:
                     # every option was read by the previous step's snapshot; does anything depend on the changed one?
                     if any(op[1] in _reach(g, x) for x in g if x != op[1]):
                         changed_after_read = True
@@ -119,7 +139,25 @@ def check(case) -> Result:
                     df = _diff(s2, s3)
                     res.fail(f"read-order|{_kind(tree, sorted(df)[0])}", f"after step {i} {op}: two read orders disagree: {dict(list(df.items())[:3])}")
                     return res
+                if sparse:
+                    k._invalidate_all()
             res.label("ops:%d" % min(len(case["ops"]) // 4 * 4, 16))
+            if sparse:
+                # reading must not change anything: the same history without its reads and without any checkpoint
+                qd = os.path.join(d, "q")
+                os.makedirs(qd, exist_ok=True)
+                quiet = kc.build(tree, qd, parser=case.get("parser", 1))
+                sess_q = ops.Session(quiet, tree, qd, case["files"])
+                quiet._invalidate_all()
+                for op in case["ops"]:
+                    if op[0] != "read":
+                        sess_q.apply(op)
+                s_a, s_q = _snap(k), _snap(quiet)
+                if s_a != s_q:
+                    df = _diff(s_a, s_q)
+                    first = sorted(df)[0]
+                    res.fail(f"reads-change-result|{_kind(tree, first)}", f"the same history without its reads ends differently: {dict(list(df.items())[:3])}")
+                    return res
             if sess.tool_loads:
                 res.label("tool-written-load")
             else:
@@ -134,12 +172,85 @@ def check(case) -> Result:
                         f"fresh-instance|{_kind(tree, first)}",
                         f"fresh instance with the same final user state differs: {dict(list(df.items())[:3])}; user state {kc.user_state(k)}",
                     )
+            if not res.violations:
+                _pair_probes(k, tree, g, res)
         except Exception as e:
             res.fail(exc_sig(e, "exception|"), f"{type(e).__name__}: {e}")
+        if sparse:
+            seen_read = False
+            for op in case["ops"]:
+                if op[0] == "read" and op[1]:
+                    seen_read = True
+                elif seen_read and op[0] in ("set", "unset", "reset", "load_hand", "load_slot"):
+                    changed_after_read = True
         res.nontrivial = changed_after_read
         for op in case["ops"]:
             res.label("op:" + op[0])
     return res
+
+
+_ALT = {"int": ("3", "7"), "hex": ("0x3", "0x7"), "float": ("1.5", "2.5"), "string": ("alpha", "beta"), "bool": ("y", "n")}
+_READS = (
+    lambda s: s.str_value,
+    lambda s: (s.visibility, s.str_value),
+    lambda s: s.config_string,
+    lambda s: (s.assignable, s.str_value),
+    lambda s: s.visibility,
+)
+
+
+def _pair_probes(k, tree, g, res: Result) -> None:
+    """The smallest partial-cache states, systematically: for every option (or choice) X and every option Y the AST says X
+    depends on: empty all caches, read ONE property of X only, change Y, and compare X with its recomputation."""
+    types = tree["types"]
+    targets = [(n, k.syms[n]) for n in tree["order"] if n in k.syms]
+    member_deps = {}
+    for i, ch in enumerate(k.unique_choices):
+        deps = set()
+        for m in ch.syms:
+            deps |= g.get(m.name, set())
+        member_deps[i] = deps - {m.name for m in ch.syms}
+    n_probe = 0
+    for xi, (xname, x) in enumerate(targets):
+        for y_name in sorted(g.get(xname, ())):
+            y = k.syms.get(y_name)
+            if y is None or y_name == xname or n_probe >= 60:
+                continue
+            n_probe += 1
+            read = _READS[(xi + n_probe) % len(_READS)]
+            if not _probe(k, lambda: read(x), lambda: kc.sym_snapshot(x), y, types[y_name], res, f"{xname} after a change of {y_name}", _kind(tree, xname)):
+                return
+    for i, ch in enumerate(k.unique_choices):
+        for y_name in sorted(member_deps[i]):
+            y = k.syms.get(y_name)
+            if y is None or n_probe >= 90:
+                continue
+            n_probe += 1
+            if not _probe(k, lambda: ch.selection, lambda: (ch.selection.name if ch.selection else None, ch.visibility), y, types[y_name], res, f"selection of choice {ch.name or i} after a change of {y_name}", "choice"):
+                return
+    res.count("pair_probes", n_probe)
+
+
+def _probe(k, read_one, observe, y, ytype, res: Result, what: str, kind: str) -> bool:
+    old_user = y._user_value
+    cur = y.str_value
+    alt = _ALT[ytype][0] if cur != _ALT[ytype][0] else _ALT[ytype][1]
+    try:
+        k._invalidate_all()
+        read_one()
+        y.set_value(alt)
+        inc = observe()
+        k._invalidate_all()
+        rec = observe()
+    finally:
+        if old_user is None:
+            y.unset_value()
+        else:
+            y.set_value(old_user if isinstance(old_user, str) else ("y" if old_user == 2 else "n"))
+    if inc != rec:
+        res.fail(f"stale|pair-probe|{kind}", f"caches emptied, one property read, then {y.name} set to {alt!r}: {what} is {inc!r}, recomputed {rec!r}")
+        return False
+    return True
 
 
 def _kind(tree, name: str) -> str:
